@@ -210,7 +210,13 @@ class AsyncPettingZooVecEnv(PettingZooVecEnv):
                 f"The call to `reset_wait` has timed out after {timeout} second(s)."
             )
 
-        info_data, successes = zip(*[pipe.recv() for pipe in self.parent_pipes])
+        try:
+            info_data, successes = zip(*[pipe.recv() for pipe in self.parent_pipes])
+        except (EOFError, OSError):
+            # A worker is gone: the pending call is over, don't wait for it again
+            self._state = AsyncState.DEFAULT
+            raise
+
         self._raise_if_errors(successes)
 
         infos = {}
@@ -281,7 +287,13 @@ class AsyncPettingZooVecEnv(PettingZooVecEnv):
         successes = []
         infos = {}
         for env_idx, pipe in enumerate(self.parent_pipes):
-            env_step_return, success = pipe.recv()
+            try:
+                env_step_return, success = pipe.recv()
+            except (EOFError, OSError):
+                # A worker is gone: the pending call is over, don't wait for it again
+                self._state = AsyncState.DEFAULT
+                raise
+
             successes.append(success)
             if success:
                 for agent in self.agents:
@@ -371,7 +383,13 @@ class AsyncPettingZooVecEnv(PettingZooVecEnv):
                 f"The call to `call_wait` has timed out after {timeout} second(s)."
             )
 
-        results, successes = zip(*[pipe.recv() for pipe in self.parent_pipes])
+        try:
+            results, successes = zip(*[pipe.recv() for pipe in self.parent_pipes])
+        except (EOFError, OSError):
+            # A worker is gone: the pending call is over, don't wait for it again
+            self._state = AsyncState.DEFAULT
+            raise
+
         self._raise_if_errors(successes)
         self._state = AsyncState.DEFAULT
         return results
@@ -439,19 +457,29 @@ class AsyncPettingZooVecEnv(PettingZooVecEnv):
                 function(timeout)
         except mp.TimeoutError:
             terminate = True
+        except Exception:
+            # The pending call failed (error raised in a sub-environment, worker gone, ...):
+            # there is nothing left to wait for, make sure all workers are shut down
+            self._state = AsyncState.DEFAULT
+            terminate = True
+
+        if not terminate:
+            try:
+                for pipe in self.parent_pipes:
+                    if (pipe is not None) and (not pipe.closed):
+                        pipe.send(("close", None))
+
+                for pipe in self.parent_pipes:
+                    if (pipe is not None) and (not pipe.closed):
+                        pipe.recv()
+            except (EOFError, OSError):
+                # A worker is no longer there to acknowledge the request
+                terminate = True
 
         if terminate:
             for process in self.processes:
                 if process.is_alive():
                     process.terminate()
-        else:
-            for pipe in self.parent_pipes:
-                if (pipe is not None) and (not pipe.closed):
-                    pipe.send(("close", None))
-
-            for pipe in self.parent_pipes:
-                if (pipe is not None) and (not pipe.closed):
-                    pipe.recv()
 
         for pipe in self.parent_pipes:
             if pipe is not None:
@@ -487,7 +515,8 @@ class AsyncPettingZooVecEnv(PettingZooVecEnv):
             logger.error(
                 f"Received the following error from Worker-{index} - Shutting it down"
             )
-            logger.error(f"{trace}")
+            # NOTE: gymnasium's logger formats its message with the % operator
+            logger.error("%s", trace)
 
             self.parent_pipes[index].close()
             self.parent_pipes[index] = None
